@@ -197,6 +197,70 @@ namespace adapt
         }
     };
 
+    //=== user-written Segregatables (doc/concepts.md): node rule and array rule are independent ===//
+    // nodes up to max go to the allocator, arrays never do ("the pool cannot serve arrays")
+    template <class RawAllocator>
+    class node_only_segregatable
+    {
+    public:
+        using allocator_type = typename fm::allocator_traits<RawAllocator>::allocator_type;
+        node_only_segregatable(std::size_t max, allocator_type&& a) noexcept
+        : alloc_(std::move(a)), max_(max)
+        {
+        }
+        allocator_type& get_allocator() noexcept
+        {
+            return alloc_;
+        }
+        const allocator_type& get_allocator() const noexcept
+        {
+            return alloc_;
+        }
+        bool use_allocate_node(std::size_t size, std::size_t) noexcept
+        {
+            return size <= max_;
+        }
+        bool use_allocate_array(std::size_t, std::size_t, std::size_t) noexcept
+        {
+            return false;
+        }
+
+    private:
+        allocator_type alloc_;
+        std::size_t    max_;
+    };
+    // nodes up to max; arrays by their *element* size (any count)
+    template <class RawAllocator>
+    class element_segregatable
+    {
+    public:
+        using allocator_type = typename fm::allocator_traits<RawAllocator>::allocator_type;
+        element_segregatable(std::size_t max, allocator_type&& a) noexcept
+        : alloc_(std::move(a)), max_(max)
+        {
+        }
+        allocator_type& get_allocator() noexcept
+        {
+            return alloc_;
+        }
+        const allocator_type& get_allocator() const noexcept
+        {
+            return alloc_;
+        }
+        bool use_allocate_node(std::size_t size, std::size_t) noexcept
+        {
+            return size <= max_;
+        }
+        bool use_allocate_array(std::size_t, std::size_t size, std::size_t) noexcept
+        {
+            return size <= max_;
+        }
+
+    private:
+        allocator_type alloc_;
+        std::size_t    max_;
+    };
+
     //=== build environment: parameters of one object generation + objects referenced by it ===//
     struct env
     {
